@@ -194,6 +194,13 @@ def closure (act : List Nat) : Nat → List Cfg → List Cfg
   | 0, cs => cs
   | n + 1, cs => closure act n (expand act cs)
 
+/-- a requester that has responded never steps again: its locals are irrelevant for the rest of the search, so they
+    are blanked to keep configurations that differ only in such leftovers from multiplying -/
+def forget (s : St) (i : Nat) : St :=
+  match s.th[i]? with
+  | some t => ⟨s.off, s.min, s.max, s.th.set i ⟨t.pc, t.len, 0, 0, t.res⟩⟩
+  | none => s
+
 /-- walk through the events; before a response all interleavings of the active requesters are explored, and only
     configurations in which the responding requester produced the observed result survive -/
 def search (h : Hist) : List Ev → List Nat → List Cfg → List Cfg
@@ -201,7 +208,8 @@ def search (h : Hist) : List Ev → List Nat → List Cfg → List Cfg
   | .inv i :: evs, act, cs => search h evs (i :: act) cs
   | .resp i :: evs, act, cs =>
     let cs' := (closure act (2 * act.length) cs).filter (fun c => resultOf c.s i == (h.res[i]?).join)
-    search h evs (act.erase i) cs'
+    let cs'' := cs'.foldl (fun acc c => addCfg acc ⟨forget c.s i, c.sched⟩) []
+    search h evs (act.erase i) cs''
 
 /-- the schedule found by the search, if any -/
 def witness (h : Hist) : Option (List Nat) :=
